@@ -1067,37 +1067,103 @@ def _pre_setup_filters(ctx: Ctx) -> bool:
 
 def gt_debuginc(ctx: Ctx) -> RuleResult:
     """Flag on: a debug successor is pulled in only when ALL its predecessors are selected."""
+    from .ref import _if_chains
+
     r = RuleResult("GT-DEBUGINC")
     g = ctx.P.classes[graph_q(ctx)]
     f = g.methods.get("include_debug_nodes")
     r.require(f is not None, "include_debug_nodes not found")
     p = f.node.args.args[1].arg
-    tests = [n for n in iter_own_nodes(f.node) if isinstance(n, ast.If) and "predecessors" in norm_src(n.test)]
-    r.require(len(tests) == 1, "include_debug_nodes: predecessor test not found")
-    t = tests[0].test
-    ok = isinstance(t, ast.Call) and isinstance(t.func, ast.Attribute) and t.func.attr == "issubset" \
-        and isinstance(t.func.value, ast.Call) and dotted(t.func.value.func) == "set" and len(t.func.value.args) == 1 \
-        and isinstance(t.func.value.args[0], ast.Call) and isinstance(t.func.value.args[0].func, ast.Attribute) \
-        and t.func.value.args[0].func.attr == "predecessors" and p in names_in(t.args[0])
-    alt = isinstance(t, ast.Call) and dotted(t.func) == "all" and "predecessors" in norm_src(t) and " if " not in norm_src(t)
-    r.ob(ok or alt, {"inclusion test": norm_src(t)})
-    if not (ok or alt):
-        filtered = any(isinstance(x, (ast.GeneratorExp, ast.ListComp, ast.SetComp)) and x.generators[0].ifs for x in ast.walk(t))
-        if filtered or (isinstance(t, ast.Call) and dotted(t.func) == "any") or "isdisjoint" in norm_src(t) or "intersection" in norm_src(t):
-            r.violate("DiGraphEx.include_debug_nodes: a debug node is pulled in although only SOME of its predecessors are selected",
-                      f.loc(tests[0]), "a debug node pulled into a sub-graph run must have all its inputs available; a predecessor that "
-                      "is filtered out of the test is not computed and the debug node runs on None", norm_src(t))
-        else:
-            raise Undecided("include_debug_nodes: inclusion test not recognised: " + norm_src(t))
-    # only debug successors not already selected are added
-    outer = [n for n in iter_own_nodes(f.node) if isinstance(n, ast.If) and "debug_nodes" in norm_src(n.test)]
-    ok2 = len(outer) == 1 and "not in" in norm_src(outer[0].test)
-    r.ob(ok2, {"candidate test": norm_src(outer[0].test) if outer else None})
+    adds = [n for n in iter_own_nodes(f.node) if isinstance(n, ast.Expr) and isinstance(n.value, ast.Call)
+            and isinstance(n.value.func, ast.Attribute) and n.value.func.attr in ("append", "add") and dotted(n.value.func.value) == p]
+    r.require(len(adds) == 1, "include_debug_nodes: inclusion site not found")
+    chains = _if_chains(f.node)
+    tests = [t for t, v in chains.get(id(adds[0]), ()) if v]
+    local = {}
+    for n in iter_own_nodes(f.node):
+        if isinstance(n, ast.Assign) and isinstance(n.targets[0], ast.Name):
+            local.setdefault(n.targets[0].id, []).append(n.value)
+
+    def expand(e: ast.AST) -> List[ast.AST]:
+        out = [e]
+        for nm in names_in(e):
+            for v in local.get(nm, []):
+                if not isinstance(v, ast.Constant):
+                    out.append(v)
+        return out
+
+    exprs = [x for t in tests for x in expand(t)]
+    pred_exprs = [x for x in exprs if "predecessors" in norm_src(x)]
+    r.require(len(pred_exprs) >= 1, "include_debug_nodes: no test on the predecessors of the candidate guards its inclusion")
+    filtered = [c for x in pred_exprs for c in ast.walk(x) if isinstance(c, (ast.GeneratorExp, ast.ListComp, ast.SetComp))
+                and "predecessors" in norm_src(c.generators[0].iter) and c.generators[0].ifs]
+    weak = [x for x in exprs if (isinstance(x, ast.Call) and dotted(x.func) == "any") or "isdisjoint" in norm_src(x) or ".intersection(" in norm_src(x)]
+    subset = [x for x in exprs if isinstance(x, ast.Call) and isinstance(x.func, ast.Attribute) and x.func.attr == "issubset" and p in names_in(x)] + \
+        [x for x in exprs if isinstance(x, ast.Call) and dotted(x.func) == "all" and "predecessors" in norm_src(x)]
+    ok = bool(subset) and not filtered and not weak
+    r.ob(ok, {"inclusion guarded by": [norm_src(t) for t in tests], "expanded": [norm_src(x)[:120] for x in pred_exprs]})
+    if filtered or weak:
+        bad = (filtered or weak)[0]
+        r.violate("DiGraphEx.include_debug_nodes: a debug node is pulled in although only SOME of its predecessors are selected",
+                  f.loc(bad), "a debug node pulled into a sub-graph run must have all its inputs available; a predecessor that is "
+                  "filtered out of the test (or an 'any' test) is not computed and the debug node runs on None", norm_src(bad)[:200])
+    elif not subset:
+        raise Undecided("include_debug_nodes: inclusion test not recognised: " + "; ".join(norm_src(t) for t in tests))
+    # only debug successors not already selected are candidates
+    cand = [t for t in tests if "debug_nodes" in norm_src(t) or ".debug" in norm_src(t)]
+    r.ob(len(cand) >= 1, {"candidate test": norm_src(cand[0]) if cand else None})
+    if not cand:
+        r.violate("DiGraphEx.include_debug_nodes: successors are pulled in without being debug nodes", f.loc(adds[0]),
+                  "only debug nodes may be added to a selection", None)
+    return r
+
+
+def gt_presence(ctx: Ctx) -> RuleResult:
+    """The selection lists are tested for presence ('is not None'), never for truthiness: an explicitly empty selection selects nothing."""
+    from .sib import PARALLEL
+
+    r = RuleResult("GT-PRESENCE")
+    n = 0
+    for f in ctx.funcs():
+        if f.module.name.endswith("_twzsa_control"):
+            continue
+        a = f.node.args
+        fparams = {x.arg for x in a.posonlyargs + a.args + a.kwonlyargs}
+        names = {x for x in PARALLEL if x in fparams} | ({f"self.{x}" for x in PARALLEL} if f.cls is not None else set())
+        if not names:
+            continue
+        for node in iter_own_nodes(f.node):
+            tests = []
+            if isinstance(node, (ast.If, ast.While, ast.IfExp)):
+                tests.append(node.test)
+            elif isinstance(node, ast.BoolOp):
+                tests += list(node.values)
+            elif isinstance(node, ast.UnaryOp) and isinstance(node.op, ast.Not):
+                tests.append(node.operand)
+            for t in tests:
+                for sub in (t.values if isinstance(t, ast.BoolOp) else [t]):
+                    inner = sub.operand if isinstance(sub, ast.UnaryOp) and isinstance(sub.op, ast.Not) else sub
+                    d = dotted(inner)
+                    if d in names and "exclude" in d:
+                        # an empty exclusion excludes nothing, exactly like an absent one: truthiness is equivalent here
+                        n += 1
+                        r.ob(True, {"truthiness test (equivalent for exclusions)": norm_src(t), "in": f.short})
+                    elif d in names:
+                        n += 1
+                        r.ob(False, {"truthiness test": norm_src(t), "in": f.short})
+                        r.violate(f"{f.short}: selection list '{d}' tested for truthiness", f.loc(node),
+                                  "'no selection given' (None) and 'an empty selection' ([]) are different requests: with a truthiness "
+                                  "test an explicitly empty list runs everything instead of nothing", norm_src(t))
+                    if isinstance(inner, ast.Compare) and len(inner.ops) == 1 and isinstance(inner.ops[0], (ast.Is, ast.IsNot)) \
+                            and dotted(inner.left) in names and isinstance(inner.comparators[0], ast.Constant) and inner.comparators[0].value is None:
+                        n += 1
+                        r.ob(True, {"presence test": norm_src(inner), "in": f.short})
+    r.require(n >= 8, f"only {n} tests on the selection lists found")
     return r
 
 
 RULES = {
     "GT-MODEL": gt_model, "GT-CARRY": gt_carry, "GT-PRIO-SINK": gt_prio_sink, "GT-POP": gt_pop, "GT-FORMULA": gt_formula,
     "GT-RECONF": gt_reconf, "GT-CYCLE": gt_cycle, "GT-SELECT": gt_select, "GT-ALIAS": gt_alias, "GT-GATE": gt_gate,
-    "GT-DEBUGINC": gt_debuginc,
+    "GT-DEBUGINC": gt_debuginc, "GT-PRESENCE": gt_presence,
 }
